@@ -60,6 +60,11 @@ func loadEngine(moduleDir string, patterns []string, overlay map[string][]byte, 
 		return nil, fmt.Errorf("package errors:\n%s", strings.Join(errs, "\n"))
 	}
 	prog, _ := ssautil.AllPackages(pkgs, ssa.SanityCheckFunctions|ssa.BareInits|ssa.InstantiateGenerics)
+	for _, sp := range prog.AllPackages() {
+		if strings.HasPrefix(sp.Pkg.Path(), repoPrefix) {
+			sp.SetDebugMode(true) // DebugRef instructions give loop invariants access to named locals
+		}
+	}
 	prog.Build()
 	e := &Engine{prog: prog, pkgs: pkgs, db: db, tags: map[string]int{}, tagNames: map[int]string{},
 		ssaPkgs: map[string]*ssa.Package{}, fnIndex: map[string]*ssa.Function{}, implCache: map[string][]types.Type{}}
@@ -223,6 +228,7 @@ type VC struct {
 	callsBy      map[string]bool
 	oblNames     map[string]int
 	entry        *State
+	axiomLine map[string]bool
 	lemmasUse    map[string]bool
 	curPos       string
 	ghostEvt     map[string]int
@@ -318,6 +324,12 @@ func (x *VC) scriptFor(o *Oblig) string {
 	var sb strings.Builder
 	sb.WriteString(prelude)
 	for _, l := range x.script[:o.Prefix] {
+		if o.Expect == "sat" && x.axiomLine[l] {
+			// cover queries leave out the quantified axioms/lemmas a contract `uses`: solvers answer
+			// `unknown` on satisfiable quantified problems; dropping assertions can only make a cover
+			// easier to satisfy, never hide an unsat one caused by the path itself
+			continue
+		}
 		sb.WriteString(l)
 		sb.WriteByte('\n')
 	}
